@@ -3,8 +3,8 @@ from . import runner
 
 
 def checks():
-    from .checks import ir, mem, intv, rv, deps, emu, match, ui
-    cs = [ir.C09(), ir.C10(), ir.C11(), ir.C12(), ir.C13(), ir.C28(), ir.C27(), mem.C14(), mem.C15(), mem.C16(), mem.C18(), intv.C17(), rv.C01(), rv.C02(), rv.C25(), rv.C21(), emu.C05(), deps.C06(), deps.C07(), deps.C08(), emu.C03(), emu.C04(), match.C19(), ui.C22(), ui.C23(), ui.C24(), ui.C29(), ui.C30(), ui.C31(), ui.C32()]
+    from .checks import ir, mem, intv, rv, deps, emu, match, ui, elfchk, startup
+    cs = [ir.C09(), ir.C10(), ir.C11(), ir.C12(), ir.C13(), ir.C28(), ir.C27(), mem.C14(), mem.C15(), mem.C16(), mem.C18(), intv.C17(), rv.C01(), rv.C02(), rv.C25(), rv.C21(), emu.C05(), deps.C06(), deps.C07(), deps.C08(), emu.C03(), emu.C04(), match.C19(), ui.C22(), ui.C23(), ui.C24(), ui.C29(), ui.C30(), ui.C31(), ui.C32(), elfchk.C20(), startup.C26()]
     return {c.pid: c for c in cs}
 
 
